@@ -32,6 +32,8 @@ def get_velocity_bins(velocity_max=None, velocity_bins=None):
     bins = [min(velocity_max, ((i + 1) * bin_size) + bin_size // 2) for i in range(0, velocity_bins)]
     # The last bin always reaches the maximum velocity
     bins[-1] = velocity_max
+    # Edges clamped to the maximum velocity must not be repeated
+    bins = sorted(set(bins))
 
     return bins
 
